@@ -403,7 +403,7 @@ def fake_sleep(sec):
     if not _impl_thread(cl):
         return REAL_SLEEP(sec)
     cl.shm_sleeps += 1
-    cl.advance_to(cl.clock.ns + int(max(sec, 0) * 1e9))
+    cl.advance_to(cl.clock.ns + int(max(sec, 0.001) * 1e9))   # a loop of sleep(0) takes time too
     if job is not None:
         job.sleep_point()
 
